@@ -62,6 +62,8 @@ def decorate(case, k, rng, cfg=None):
     c["root"] = 1 if c["sub"] == 0 and rng.random() < 0.25 else 0
     # CASE TWINS: files 2 and 3 are named a.<ext> and A.<ext> (paths that differ by letter case only are different files)
     c["casetwin"] = 1 if case["n"] >= 3 and rng.random() < 0.2 else 0
+    # the modules close their last statements with semicolons (tokens of the MODULE's text, not of the entry's)
+    c["semi"] = 1 if rng.random() < 0.3 else 0
     return c
 
 
